@@ -227,6 +227,22 @@ def w2_case(res, case):
         res.count('w2_gpu_abuf')
     if exp_abuf.any(): res.count('w2_nonzero_abuf')
     if (exp_abuf < 0).any(): res.count('w2_negative_abuf')
+    # a propagation restricted to the first k simulations (new stimulus: lanes reversed), then a capture: the capture describes the
+    # stored output waveforms of ALL simulations, also of those the last propagation left alone
+    k = max(1, n // 2)
+    W.assign(sim, ipos + spos, [x[::-1].copy() for x in init], [x[::-1].copy() for x in tt], [x[::-1].copy() for x in fin])
+    sim.s_to_c(); sim.c_prop(sims=k); sim.c_to_s()
+    for j, pos in enumerate(opos + spos):
+        node = (b.out_nodes + b.st_nodes)[j]
+        li = stems.get(node.ins[0].index, node.ins[0].index)
+        for lane in sorted({0, k - 1, k % n, (k + 1) % n, n - 1}):
+            ini, times, term, ovl = wsim.decode(sim.c, int(sim.c_locs[li]), int(sim.c_caps[li]), lane)
+            ei, eeat, elst, efin, ev = summary(ini, times, float(TMAX))
+            got = (float(sim.s[3, pos, lane]), float(sim.s[4, pos, lane]), float(sim.s[5, pos, lane]), float(sim.s[6, pos, lane]), float(sim.s[7, pos, lane]), float(sim.s[8, pos, lane]), float(sim.s[10, pos, lane]))
+            exp = (float(ei), eeat, elst, float(efin), float(ev), float(ev), float(ovl))
+            if got != exp:
+                res.violation(key + f'/partial-prop-capture-{j}', case, f'after c_prop(sims={k}) of {n}: output {j} lane {lane}: waveform init={ini} times={times} ovl={ovl}: s[3,4,5,6,7,8,10] = {got} expected {exp} {nl}'); break
+    res.count('w2_partial_propagations')
     res.sig((case['nl'], case['style'], tuple(case['plan']), case['capname'], case['actrl'], case['T'], got_abuf.tobytes()))
     res.count('w2_cases')
     if strip: res.count('w2_strip_cases')
@@ -277,7 +293,7 @@ def replay(case):
 
 
 def finish(agg, tier):
-    need = ['captures_with_sd', 'w1_overflows', 'w2_overflow_flags', 'w2_nonzero_abuf', 'w2_negative_abuf', 'w2_gpu_abuf', 'w2_cases', 'w2_strip_cases']
+    need = ['captures_with_sd', 'w1_overflows', 'w2_overflow_flags', 'w2_nonzero_abuf', 'w2_negative_abuf', 'w2_gpu_abuf', 'w2_cases', 'w2_strip_cases', 'w2_partial_propagations']
     missing = [k for k in need if not agg.counters.get(k)]
     if missing: raise common.HarnessError(f'vacuity guard: {missing} zero')
     return {}
